@@ -162,6 +162,13 @@ class Hooks(BaseHooks):
                 viol.append(V("bounded", i, f"estimate {est!r} exceeds ||A||_2 = {nA!r}"))
             if est < 0:
                 viol.append(V("bounded", i, f"estimate {est!r} is negative (it is a modulus)"))
+            # the estimate is the modulus of the Rayleigh quotient of the RETURNED vector
+            # (every budget, converged or not)
+            rq = qalg.mmm(qalg.herm(v), A, v)
+            rqm = qalg.fro(rq) / max(nv * nv, 1e-300)
+            if abs(est - rqm) > 1e-10 * max(nA, 1e-300):
+                viol.append(V("rayleigh", i, f"estimate {est!r} is not |v^H A v| = {rqm!r} of the returned vector "
+                                             f"(budget {t['budget']}, {t['family']}, n={n})"))
         # convergence from every start for the gapped Hermitian family with the large budget
         if herm_in and t["budget"] >= BIG and n >= 1:
             lam1 = t["lam"][0] * (10.0 ** t["scale"])
